@@ -470,30 +470,40 @@ def run_cases(ctx, res: Result, cases, label, snaps=None, sample_pathof=0.1, cou
             r = take_snapshot(case["A"], rec, asb)
             s = take_snapshot(case["B"], rec, asb)
             wr, ws = sx(snap_wire(r)), sx(snap_wire(s))
-        d = mk_diff(r, s, ign)
+        res.evaluations += 1
+        try:
+            d = mk_diff(r, s, ign)
+        except Exception as ex:      # the real diff raised (KeyError ...): a failure of the property and of the correspondence
+            res.failures.append(Failure(what=f"DirectorySnapshotDiff raised {type(ex).__name__}: {ex}", case=case,
+                                        signature={"law": "total", "ign": ign, "exception": type(ex).__name__},
+                                        observed=repr(ex), expected="a diff object"))
+            lines.append(f"(diff {int(ign)} {wr} {ws})")
+            impls.append(["CRASH", type(ex).__name__])
+            metas.append(case)
+            continue
         im, dup = impl_lists(d)
         if dup:
             res.mismatches.append(Mismatch(pair="DirectorySnapshotDiff list without duplicates", case=case, model="sets", impl=str(im)))
         lines.append(f"(diff {int(ign)} {wr} {ws})")
         impls.append(im)
         metas.append(case)
-        res.evaluations += 1
         # oracle
-        bad, cls = oracle(r, s, d, mk_diff, ign)
+        try:
+            bad, cls = oracle(r, s, d, mk_diff, ign)
+            for which, snp in (("A", r), ("B", s)):
+                k = (case.get("ia") if which == "A" else case.get("ib"), ign) if snaps is not None else None
+                if k is not None and k in self_done:
+                    continue
+                if k is not None:
+                    self_done.add(k)
+                nonempty = self_oracle(snp, mk_diff, ign)
+                if nonempty:
+                    bad.append((f"self: diff of snapshot {which} against itself is not empty", nonempty, "all eight lists empty"))
+        except Exception as ex:
+            bad, cls = [(f"total: a diff needed by the laws (swap / self) raised {type(ex).__name__}", repr(ex), None)], "raised"
         for law, obs, exp in bad[:3]:
             res.failures.append(Failure(what=f"DirectorySnapshotDiff: {law}", case=case,
                                         signature={"law": law.split(":")[0], "ign": ign}, observed=obs, expected=exp))
-        for which, snp in (("A", r), ("B", s)):
-            k = (case.get("ia") if which == "A" else case.get("ib"), ign) if snaps is not None else None
-            if k is not None and k in self_done:
-                continue
-            if k is not None:
-                self_done.add(k)
-            nonempty = self_oracle(snp, mk_diff, ign)
-            if nonempty:
-                res.failures.append(Failure(what="DirectorySnapshotDiff: diff of a snapshot against itself is not empty",
-                                            case={**case, "self": which}, signature={"law": "self", "ign": ign},
-                                            observed=nonempty, expected="all eight lists empty"))
         # coverage accounting
         ne = [nm for nm, l in zip(LISTS, im) if l]
         feats = features(r, s, d)
@@ -616,8 +626,11 @@ def replay(ctx, obj) -> int:
     print("old snapshot:", {p: (r.inode(p), r.isdir(p), r.mtime(p), r.size(p)) for p in sorted(r.paths)})
     print("new snapshot:", {p: (s.inode(p), s.isdir(p), s.mtime(p), s.size(p)) for p in sorted(s.paths)})
     from watchdog.utils.dirsnapshot import DirectorySnapshotDiff
-    d = DirectorySnapshotDiff(r, s, ignore_device=case["ign"])
-    print("real diff:", {nm: getattr(d, nm) for nm in LISTS if getattr(d, nm)})
+    try:
+        d = DirectorySnapshotDiff(r, s, ignore_device=case["ign"])
+        print("real diff:", {nm: getattr(d, nm) for nm in LISTS if getattr(d, nm)})
+    except Exception as ex:
+        print("real diff raised:", repr(ex))
     for f in res.failures:
         print("FAIL:", f.what, "observed", f.observed, "expected", f.expected)
     for m in res.mismatches:
